@@ -6,7 +6,7 @@ CONSTANTS
   NIds = 2
   LeafKinds <- OneLeafKind
   SuiteKinds <- AllSuiteKinds
-  MaxOps = 1
+  MaxOps = 0
   SortVariant = "asRequired"
 VIEW ViewNoHist
 INVARIANT IterateOnce
